@@ -27,9 +27,20 @@ func checkC12(w *World, r *Report) {
 	r.Decides = "C12 is decided in its structural part only: (a) encoder and decoder agree on the layout: a header of keyHeaderLen bytes whose version byte sits at the same position on both sides, one type byte at offset 0 of the body, the key from offset 1; (b) user bytes pass verbatim: the encoder uses the key only as the source of a copy into a freshly sized buffer, the decoder returns a sub-slice of its input; (c) constant prefix per key space: only the version byte of the header is ever stored, user and system type constants are distinct and ordered user < system, bookkeeping key names are non-empty and start with a byte > 0; (d) range bounds and bookkeeping keys go through the same encoder (the obligations C01.f/g). Injectivity, round trip and order preservation then follow from the lemma 'k -> c ++ k is injective and monotone for a fixed c', which is mathematics and the stated assumption."
 	r.NotDecided = []string{"the arithmetic of the wildcard bound increment", "keys longer than the streaming Decoder's body limit (the unused Decoder would truncate them; DecodeBytes does not)"}
 	r.Assume = []string{"lemma: prefixing with a constant is injective and order preserving under bytewise comparison"}
+	c12Layout(w, r, "C12", ".a", ".b", ".c")
+	a := w.FsmAnchors()
+	if len(a.Problems) == 0 && a.Update != nil {
+		c01KeySpace(w, r, a, "C12.d1", "d1-key-space")
+		c01Bounds(w, r, a, "C12.d2", "d2-bounds-same-encoder")
+	}
+}
+
+// c12Layout: the obligations C12.a-c (layout agreement, verbatim bytes, constant prefix), shared
+// with C01 (the stored key of a table is this encoding of the user key).
+func c12Layout(w *World, r *Report, pfx, ida, idb, idc string) {
 	p := w.Pkg(keyRel)
 	if p == nil {
-		ob := r.Ob("C12.anchors", "anchors", "key package loads", "")
+		ob := r.Ob(pfx+".anchors", "anchors", "key package loads", "")
 		ob.Undecided("anchors", "storage/table/key not loaded")
 		return
 	}
@@ -47,9 +58,9 @@ func checkC12(w *World, r *Report) {
 	dec := w.Func(keyRel, "DecodeBytes")
 	decV1 := w.Func(keyRel, "v1DecodeRaw")
 
-	obA := r.Ob("C12.a", "a-layout-agreement", "Encoder.Encode writes a [keyHeaderLen]byte header with the version stored at keyVersionHeaderPos, then the v1 body: a buffer of 1+len(key) bytes with the type at index 0 and the key copied from index 1; DecodeBytes tests the version at keyVersionHeaderPos, strips keyHeaderLen bytes, and the raw v1 decoder takes the type from index 0 and the key from index 1", "a width or offset that differs on one side shifts every decoded key by a byte: keys collide or lose their first byte")
-	obB := r.Ob("C12.b", "b-verbatim-bytes", "in the v1 encoder the key field is used only as len() argument and as source of copy into the fresh buffer, which is written as a whole; the decoders return sub-slices of their input without element stores", "any transformation of key bytes must be undone exactly and preserve order - there is none to check if bytes are copied verbatim")
-	obC := r.Ob("C12.c", "c-constant-prefix", "the only store into the header array is the version byte; TypeUser != TypeSystem and TypeUser < TypeSystem; every bookkeeping key of the state machine is built from a non-empty name whose first byte is > 0", "a varying prefix breaks order preservation; bookkeeping names starting with a zero byte would sort into the range the wildcard addresses")
+	obA := r.Ob(pfx+ida, "a-layout-agreement", "Encoder.Encode writes a [keyHeaderLen]byte header with the version stored at keyVersionHeaderPos, then the v1 body: a buffer of 1+len(key) bytes with the type at index 0 and the key copied from index 1; DecodeBytes tests the version at keyVersionHeaderPos, strips keyHeaderLen bytes, and the raw v1 decoder takes the type from index 0 and the key from index 1", "a width or offset that differs on one side shifts every decoded key by a byte: keys collide or lose their first byte")
+	obB := r.Ob(pfx+idb, "b-verbatim-bytes", "in the v1 encoder the key field is used only as len() argument and as source of copy into the fresh buffer, which is written as a whole; the decoders return sub-slices of their input without element stores", "any transformation of key bytes must be undone exactly and preserve order - there is none to check if bytes are copied verbatim")
+	obC := r.Ob(pfx+idc, "c-constant-prefix", "the only store into the header array is the version byte; TypeUser != TypeSystem and TypeUser < TypeSystem; every bookkeeping key of the state machine is built from a non-empty name whose first byte is > 0", "a varying prefix breaks order preservation; bookkeeping names starting with a zero byte would sort into the range the wildcard addresses")
 	if enc == nil || encV1 == nil || dec == nil || decV1 == nil || hdrLen < 0 {
 		obA.Undecided("anchor", "encoder/decoder functions or layout constants not found")
 		return
@@ -300,9 +311,4 @@ func checkC12(w *World, r *Report) {
 	obA.NeedFloor(6)
 	obB.NeedFloor(3)
 	obC.NeedFloor(4)
-	a := w.FsmAnchors()
-	if len(a.Problems) == 0 && a.Update != nil {
-		c01KeySpace(w, r, a, "C12.d1", "d1-key-space")
-		c01Bounds(w, r, a, "C12.d2", "d2-bounds-same-encoder")
-	}
 }
